@@ -565,6 +565,9 @@ func init() {
 			if !ok || !nv.T.IsStr() || e.fr == nil {
 				fail("spec: localor(\"name\", default)")
 			}
+			if alias, ok := e.localAlias(nv.T.S); ok {
+				nv = Scalar{Str(alias)}
+			}
 			if v, ok := e.fr.env[nv.T.S]; ok && !e.noLocals {
 				if e.fr.envAddr[nv.T.S] {
 					p := v.(Ptr)
